@@ -16,11 +16,41 @@ import (
 	"strings"
 )
 
+// varQ: a declaration that references path.sym.  The reference sits in one of several positions - an operand, a map key
+// type, a type argument, an asserted type, a union term, an element type, a parameter, an embedded field, a call argument,
+// one of a list - chosen by the symbol, so that the references of one file are spread over the constructs.
 func varQ(path, sym string) *Node {
-	return &Node{K: "stmt", Items: []*Node{
-		{K: "tok", T: "kw", V: "var"}, {K: "tok", T: "id", V: "_"}, {K: "tok", T: "op", V: "="},
-		{K: "grp", Name: "qual", Items: []*Node{{K: "tok", T: "pkg", V: path}, {K: "tok", T: "id", V: sym}}},
-	}}
+	q := &Node{K: "grp", Name: "qual", Items: []*Node{{K: "tok", T: "pkg", V: path}, {K: "tok", T: "id", V: sym}}}
+	pre := []*Node{kwn("var"), idn("_"), opn("=")}
+	h := 0
+	for _, c := range []byte(sym) {
+		h = h*31 + int(c)
+	}
+	switch h % 12 {
+	case 1:
+		return stm(kwn("var"), idn("_"), grp("map", stm(q)), idn("int"))
+	case 2:
+		return stm(append(pre, idn("f"), grp("types", stm(q)))...)
+	case 3:
+		return stm(append(pre, idn("x"), grp("assert", stm(q)))...)
+	case 4:
+		return stm(kwn("type"), idn("_"), grp("interface", stm(grp("union", stm(q), stm(idn("int"))))))
+	case 5:
+		return stm(append(pre, grp("index"), q, grp("values"))...)
+	case 6:
+		return stm(kwn("func"), idn("_"), grp("params", stm(q)), grp("block"))
+	case 7:
+		return stm(append(pre, grp("struct", stm(q)), grp("values"))...)
+	case 8:
+		return stm(append(pre, idn("g"), grp("call", stm(q)))...)
+	case 10:
+		return stm(kwn("func"), idn("_"), grp("types", stm(idn("P"), opn("*"), q)), grp("params"), grp("block"))
+	case 11:
+		return stm(kwn("func"), idn("_"), grp("types", stm(idn("P"), grp("parens", stm(q)))), grp("params"), grp("block"))
+	case 9:
+		return stm(kwn("var"), grp("list", stm(idn("_")), stm(idn("_"))), opn("="), grp("list", stm(q), stm(lit("1"))))
+	}
+	return stm(append(pre, q)...)
 }
 
 func qualStmt(path, sym string) *Node {
@@ -275,6 +305,11 @@ func drvPaths(r *rand.Rand, n int) [][]Action {
 				if StdName(p) == "" && !claimed[p] {
 					h = append(h, Action{A: "ImportName", P: p, N: hintName(r)})
 					claimed[p] = true
+				} else if r.Intn(2) == 0 {
+					// an empty name claims nothing: it withdraws an earlier hint (an entry of a table, say), and the
+					// path is named by the standard table or by guessing again
+					h = append(h, Action{A: "ImportName", P: p, N: ""})
+					claimed[p] = false
 				}
 			case 1:
 				h = append(h, Action{A: "ImportAlias", P: p, N: hintName(r)})
@@ -487,7 +522,11 @@ func drvHistory(r *rand.Rand, n int, lateHints bool) [][]Action {
 					if c, ok := claimed[p]; ok {
 						nm = c
 					}
-					claimed[p] = nm
+					if r.Intn(6) == 0 {
+						nm = "" // withdraws the hint; claims nothing
+					} else {
+						claimed[p] = nm
+					}
 					h = append(h, Action{A: "ImportName", P: p, N: nm})
 				}
 			case 4:
@@ -540,7 +579,9 @@ func drvCgo(r *rand.Rand, n int) [][]Action {
 	pres := [][]string{{}, {"#include <stdio.h>"}, {"#include <a.h>", "int f();\nint g();"}, {"// #cgo LDFLAGS: -lm"}, {"/*\n#include <b.h>\n*/"},
 		{"#include <a.h>", "#include <b.h>", "static int x = 1;"},
 		// the same line more than once: every occurrence is part of the preamble
-		{"#ifdef A", "#include <a.h>", "#endif", "#ifdef B", "#include <b.h>", "#endif"}, {"#include <a.h>", "#include <a.h>"}, {"int x;", "", "int x;"}}
+		{"#ifdef A", "#include <a.h>", "#endif", "#ifdef B", "#include <b.h>", "#endif"}, {"#include <a.h>", "#include <a.h>"}, {"int x;", "", "int x;"},
+		// texts that end with a newline (read from a file, built line by line): one line, several lines
+		{"#include <math.h>\n"}, {"#include <a.h>\n", "int f();\nint g();\n"}, {"#cgo LDFLAGS: -lm\n", "#include <b.h>"}}
 	others := []string{"x/d", "fmt", "y/d", "x/c", "unsafe", "9fans.net/go/acme", "B/up", "A.b/c", "-dash/p", "4d63.com/x"} // (some sort before "C")
 	for i := 0; i < n; i++ {
 		st := &symtab{}
